@@ -19,14 +19,18 @@ type ExtFunc func(m *Machine, pos token.Pos, recv Value, args []Value) (Value, e
 type Machine struct {
 	Prog    *load.Program
 	Ext     map[string]ExtFunc // by types.Func.FullName()
+	ExtVars map[string]Value   // models of package-level variables outside moq, by "pkgpath.Name"
 	Choices *Choices
 	Fuel    int
 	globals map[*types.Var]Value
 	// Notes collects rule-relevant observations made during interpretation
 	// (e.g. a type rendered without the file's qualifier).
 	Notes []Note
-	depth int
-	seq   int
+	// Distinct, when set, says that a token is known to differ from a literal (e.g. an identifier
+	// token differs from "." whatever identifier it stands for).
+	Distinct func(tok, lit string) bool
+	depth    int
+	seq      int
 }
 
 // Note is an observation made by an Ext model.
@@ -143,7 +147,7 @@ const (
 )
 
 func New(prog *load.Program) *Machine {
-	m := &Machine{Prog: prog, Ext: map[string]ExtFunc{}, Choices: NewChoices(64), Fuel: 2_000_000, globals: map[*types.Var]Value{}}
+	m := &Machine{Prog: prog, Ext: map[string]ExtFunc{}, ExtVars: map[string]Value{}, Choices: NewChoices(64), Fuel: 2_000_000, globals: map[*types.Var]Value{}}
 	installStdlib(m)
 	return m
 }
@@ -690,6 +694,14 @@ func (m *Machine) exec(fr *frame, s ast.Stmt) (ctrl, Value, error) {
 				}
 				if want == dyn && chosen == nil {
 					chosen = cl
+				}
+				// an interface case matches every dynamic type that implements it
+				if chosen == nil && want != "nil" && dyn != "nil" {
+					if it, ok := info.TypeOf(te).Underlying().(*types.Interface); ok {
+						if dt := m.goTypeOf(dyn); dt != nil && types.Implements(dt, it) {
+							chosen = cl
+						}
+					}
 				}
 			}
 		}
@@ -1245,6 +1257,9 @@ func (m *Machine) global(o *types.Var) (Value, error) {
 	if v, ok := m.globals[o]; ok {
 		return v, nil
 	}
+	if v, ok := m.ExtVars[o.Pkg().Path()+"."+o.Name()]; ok {
+		return v, nil
+	}
 	pk := m.Prog.ByPath[o.Pkg().Path()]
 	if pk == nil || !m.Prog.IsMoqPkg(o.Pkg()) {
 		return nil, undecided(o.Pos(), "package-level variable %s.%s outside moq", o.Pkg().Path(), o.Name())
@@ -1326,6 +1341,18 @@ func (m *Machine) equal(pos token.Pos, a, b Value) Value {
 	case *Sym:
 		if b, ok := b.(*Sym); ok {
 			eq, known := a.Equal(b)
+			if !known && m.Distinct != nil {
+				if t, ok := a.SingleTok(); ok {
+					if c, ok := b.Concrete(); ok && m.Distinct(t, c) {
+						return false
+					}
+				}
+				if t, ok := b.SingleTok(); ok {
+					if c, ok := a.Concrete(); ok && m.Distinct(t, c) {
+						return false
+					}
+				}
+			}
 			if !known {
 				return &Unknown{Why: fmt.Sprintf("(%q == %q)", a.Flat(), b.Flat())}
 			}
@@ -1807,7 +1834,13 @@ func (m *Machine) typeAssert(fr *frame, e *ast.TypeAssertExpr) ([]Value, error) 
 		if x.GoType == want {
 			return []Value{x, true}, nil
 		}
-		if _, isIface := fr.info.TypeOf(e.Type).Underlying().(*types.Interface); isIface {
+		if it, isIface := fr.info.TypeOf(e.Type).Underlying().(*types.Interface); isIface {
+			if dt := m.goTypeOf(x.GoType); dt != nil {
+				if types.Implements(dt, it) {
+					return []Value{x, true}, nil
+				}
+				return []Value{NilV{}, false}, nil
+			}
 			return []Value{x, &Unknown{Why: "interface assertion on " + Show(x)}}, nil
 		}
 		return []Value{NilV{}, false}, nil
@@ -1827,3 +1860,25 @@ func (m *Machine) Zero(t types.Type) Value { return m.zero(t) }
 
 // Memo returns the unknown conditions decided on the current run: key "pos:why" -> outcome.
 func (c *Choices) Memo() map[string]bool { return c.memo }
+
+// goTypeOf resolves the spelling of a dynamic type ("*go/types.Slice") to the type itself.
+func (m *Machine) goTypeOf(dyn string) types.Type {
+	ptr := strings.HasPrefix(dyn, "*")
+	name := strings.TrimPrefix(dyn, "*")
+	i := strings.LastIndexByte(name, '.')
+	if i < 0 {
+		return nil
+	}
+	pk := m.Prog.ByPath[name[:i]]
+	if pk == nil || pk.Types == nil {
+		return nil
+	}
+	tn, _ := pk.Types.Scope().Lookup(name[i+1:]).(*types.TypeName)
+	if tn == nil {
+		return nil
+	}
+	if ptr {
+		return types.NewPointer(tn.Type())
+	}
+	return tn.Type()
+}
